@@ -380,15 +380,19 @@ def graph_problem(engine) -> str:
             if id(a.term) not in own:
                 return f"fuzzy output of {ov.name} holds a term object that is not one of its terms"
 
-    def walk(node, where):
-        if node is None:
-            return ""
-        if hasattr(node, "left"):
-            return walk(node.left, where) or walk(node.right, where)
-        if node.variable is None or id(node.variable) not in vars_by_id:
-            return f"{where}: proposition variable is not a variable of this engine"
-        if node.term is not None and all(node.term is not t for t in node.variable.terms):
-            return f"{where}: proposition term '{node.term.name}' is not a term object of {node.variable.name}"
+    def walk(root, where):
+        stack = [root]  # iterative: the tree of a long rule is as deep as the rule has connectives
+        while stack:
+            node = stack.pop()
+            if node is None:
+                continue
+            if hasattr(node, "left"):
+                stack += [node.right, node.left]
+                continue
+            if node.variable is None or id(node.variable) not in vars_by_id:
+                return f"{where}: proposition variable is not a variable of this engine"
+            if node.term is not None and all(node.term is not t for t in node.variable.terms):
+                return f"{where}: proposition term '{node.term.name}' is not a term object of {node.variable.name}"
         return ""
     for bi, b in enumerate(engine.rule_blocks):
         for ri, r in enumerate(b.rules):
